@@ -73,7 +73,8 @@ def canon(fps):
             arrs.append(dict(legs_list=c(('l', a['legs_list'])),
                              legs=[[c(('g', l[0])), c(('lb', l[1])), c(('lb', l[2])), [c(('g', s)) for s in l[3]]] for l in a['legs']],
                              qtotal=c(('b', a['qtotal'])), labels=c(('b', a['labels'])), data=c(('l', a['data'])),
-                             blocks=[c(('b', b)) for b in a['blocks']], qdata=c(('b', a['qdata'])), nq=a['nq']))
+                             blocks=[c(('b', b)) for b in a['blocks']], qdata=c(('b', a['qdata'])), nq=a['nq'],
+                             keys=a.get('keys')))
         legs = [[c(('g', l[0])), c(('lb', l[1])), c(('lb', l[2])), [c(('g', s)) for s in l[3]]] for l in st['legs']]
         out.append(dict(arrs=arrs, legs=legs))
     return out
@@ -158,6 +159,10 @@ def evaluate(ctx, cases, use_model=True, configs=('cy', 'py')):
                 res.fail('correspondence', 'c03.model-error', f'[{cfg}] {m}', case)
                 continue
             real_c, model_c = canon(r['fps']), canon_model(m['steps'])
+            for st_r, st_m in zip(real_c, model_c):   # keys of a tensor with a broken `_qdata` are not comparable
+                for a_r, a_m in zip(st_r['arrs'], st_m['arrs']):
+                    if a_r.get('keys') is None:
+                        a_m['keys'] = None
             if real_c != model_c:
                 k = next((s for s, (x, y) in enumerate(zip(real_c, model_c)) if x != y), min(len(real_c), len(model_c)))
                 op = r['ops'][k] if k < len(r['ops']) else '?'
@@ -189,7 +194,7 @@ def cases_for(ctx, tag, n_hist, n_mps):
 def run(ctx):
     res = core.Result()
     if ctx.quick:
-        cases = list(CORPUS) + cases_for(ctx, 'main', 1500, 24)
+        cases = list(CORPUS) + cases_for(ctx, 'main', 1300, 16)
     else:
         cases = list(CORPUS) + cases_for(ctx, 'main', 30000, 300)
     res.merge(evaluate(ctx, cases))
